@@ -369,3 +369,44 @@ M("C08", "sanitizer check_nans from compute", PR, "Sanitizer, check_nans=self.ch
 M("C08", "single model ignores use_coslat", BS, "            with_coslat=use_coslat,\n", "", "WIRE.option")
 B("C08", "options via local dict", BS, "        self.preprocessor = Preprocessor(\n            sample_name=sample_name,\n            feature_name=feature_name,\n            with_center=center,", "        self.preprocessor = Preprocessor(\n            feature_name=feature_name,\n            sample_name=sample_name,\n            with_center=center,")
 B("C08", "weights forwarded by keyword", BC, "X = self.preprocessor1.fit_transform(X, self.sample_dims, weights_X)", "X = self.preprocessor1.fit_transform(X, self.sample_dims, weights=weights_X)")
+M("C14", "fit and transform bookkeeping share one dict", "xeofs/preprocessing/multi_index_converter.py", "        self.coords_from_fit = {}\n        self.coords_from_transform = {}\n", "        self.coords_from_fit = self.coords_from_transform = {}\n", "HIST.alias")
+M("C14", "stacker coords_out aliases coords_in", "xeofs/preprocessing/stacker.py", "        self.coords_in = {}\n        self.coords_out = {}\n", "        self.coords_in = {}\n        self.coords_out = self.coords_in\n", "HIST.alias")
+
+# ---------------------------------------------------------------- C02
+MI = "xeofs/preprocessing/multi_index_converter.py"
+CO = "xeofs/preprocessing/concatenator.py"
+DR = "xeofs/preprocessing/dimension_renamer.py"
+M("C02", "get_transformers not reversed", PR, "            transformers = transformers[::-1]", "            transformers = transformers", "MIRROR.chain.reverse")
+M("C02", "two stages swapped in fit", PR, "        X = self.postconverter.fit_transform(X, sample_dims, feature_dims)\n        # 6 | Remove NaNs\n        X = self.sanitizer.fit_transform(X, sample_dims, feature_dims)", "        X = self.sanitizer.fit_transform(X, sample_dims, feature_dims)\n        # 6 | Remove NaNs\n        X = self.postconverter.fit_transform(X, sample_dims, feature_dims)", "MIRROR.chain.fit_order")
+M("C02", "table order changed", PR, "            postconverter=MultiIndexConverter,\n            sanitizer=Sanitizer,", "            sanitizer=Sanitizer,\n            postconverter=MultiIndexConverter,", "MIRROR.chain.fit_order")
+M("C02", "stage fed with stale input", PR, "        X = self.renamer.fit_transform(X, sample_dims, feature_dims)\n        sample_dims, feature_dims = extract_new_dim_names", "        X_renamed = self.renamer.fit_transform(X, sample_dims, feature_dims)\n        sample_dims, feature_dims = extract_new_dim_names", "MIRROR.chain.fed", accept_error=True)
+M("C02", "variable level renamed on one side", ST, 'ds: DataSet = data.to_unstacked_dataset(feature_name, "variable").unstack()', 'ds: DataSet = data.to_unstacked_dataset(feature_name, "var").unstack()', "MIRROR.state.dataset.level")
+M("C02", "split offsets from other attribute", CO, "        idx_range = np.cumsum([0] + self.n_features)\n        for i, coords in enumerate(self.coords_in.values()):", "        idx_range = np.cumsum([0] + [c.size for c in self.coords_in.values()][::-1])\n        for i, coords in enumerate(self.coords_in.values()):", "MIRROR.state.concat.offsets")
+M("C02", "data restored from transform reference", MI, '    def inverse_transform_data(self, X: DataVarBound) -> DataVarBound:\n        return self._inverse_transform(X, reference="fit")', '    def inverse_transform_data(self, X: DataVarBound) -> DataVarBound:\n        return self._inverse_transform(X, reference="transform")', "MIRROR.state.multiindex.uses")
+M("C02", "inverse preprocessor calls other inverse", PR, "            X_it = transformer.inverse_transform_components(X_it)", "            X_it = transformer.inverse_transform_data(X_it)", "MIRROR.chain.inverse")
+M("C02", "unstack renames sample to feature dim", ST, "                    X = X.rename({sample_name: self.dims_mapping[sample_name][0]})", "                    X = X.rename({sample_name: self.dims_mapping[feature_name][0]})", "MIRROR.state.stack")
+M("C02", "dataset data not reordered", ST, "        ds: DataSet = X.to_unstacked_dataset(feature_name, \"variable\").unstack()\n        ds = self._reorder_dims(ds)\n        return ds", "        ds: DataSet = X.to_unstacked_dataset(feature_name, \"variable\").unstack()\n        return ds", "MIRROR.order")
+M("C02", "components dispatch uses data variant", ST, '            case "Dataset":\n                return self._unstack_to_dataset_components(X)', '            case "Dataset":\n                return self._unstack_to_dataset_data(X)', "MIRROR.state.type.dispatch")
+M("C02", "renamer inverse not swapped", DR, "return X.rename({v: k for k, v in self.dim_mapping.items() if v in dims})", "return X.rename({k: v for k, v in self.dim_mapping.items() if v in dims})", "MIRROR.state.renamer.inverse")
+M("C02", "converter transform loops over fit coords of other dims", MI, "        for dim in self.modified_dimensions:\n            # We need to store", "        for dim in X.dims:\n            # We need to store", "MIRROR.state.multiindex.transform")
+M("C02", "concat range off by one", CO, "            new_coords = np.arange(idx_range[i], idx_range[i + 1])", "            new_coords = np.arange(idx_range[i] + 1, idx_range[i + 1] + 1)", "MIRROR.state.concat.range")
+B("C02", "rename loop variable", PR, "        for transformer in self.get_transformers():\n            X_t = transformer.transform(X_t)  # type: ignore", "        for stage in self.get_transformers():\n            X_t = stage.transform(X_t)  # type: ignore")
+B("C02", "explicit variable_dim", ST, "                X = X.to_stacked_array(\n                    new_dim=feature_name, sample_dims=(self.sample_name,)\n                )", "                X = X.to_stacked_array(\n                    new_dim=feature_name, sample_dims=(self.sample_name,), variable_dim=\"variable\"\n                )")
+
+# ---------------------------------------------------------------- C20
+BT = "xeofs/validation/bootstrapper.py"
+M("C20", "unseeded generator", BT, 'rng = np.random.default_rng(self._params["seed"])', "rng = np.random.default_rng()", "RNG.seed")
+M("C20", "without replacement", BT, "idx_rnd = rng.choice(n_samples, n_samples, replace=True)", "idx_rnd = rng.choice(n_samples, n_samples, replace=False)", "RNG.draw.replace")
+M("C20", "half-size resample", BT, "idx_rnd = rng.choice(n_samples, n_samples, replace=True)", "idx_rnd = rng.choice(n_samples, n_samples // 2, replace=True)", "RNG.draw.size")
+M("C20", "signs on components only", BT, "        bst_components = bst_components * signs\n        bst_scores = bst_scores * signs\n", "        bst_components = bst_components * signs\n", "SIGN.apply")
+M("C20", "projects the resample", BT, "scores = bst_model.transform(input_data, normalized=False)", "scores = bst_model.transform(bst_data, normalized=False)", "RNG.member.project")
+M("C20", "literal sample", BT, "(bst_scores * model_scores).mean(sample_name)", '(bst_scores * model_scores).mean("sample")', "NAMES.literal")
+M("C20", "member fitted on original data", BT, "bst_model.fit(bst_data, dim=sample_name)", "bst_model.fit(input_data, dim=sample_name)", "RNG.member.fit")
+M("C20", "member without model names", BT, "                sample_name=sample_name,\n                feature_name=feature_name,\n            )\n            bst_model.fit", "            )\n            bst_model.fit", "NAMES.member")
+M("C20", "resample along features", BT, "bst_data = input_data.isel({sample_name: idx_rnd})", "bst_data = input_data.isel({feature_name: idx_rnd})", "RNG.resample")
+M("C20", "members labelled from zero", BT, "coords_n = np.arange(1, n_bootstraps + 1)", "coords_n = np.arange(0, n_bootstraps)", "SIGN.labels")
+M("C20", "sign from member scores only", BT, "        signs = np.sign(corr)", "        signs = np.sign(bst_scores.mean(sample_name))", "SIGN.source")
+M("C20", "norms stored without copy", BT, 'self.data.add(name="norms", data=model.data["norms"].copy(deep=False))', 'self.data.add(name="norms", data=model.data["norms"])', "OWN.borrowed")
+M("C20", "global numpy draw", BT, "idx_rnd = rng.choice(n_samples, n_samples, replace=True)", "idx_rnd = np.random.choice(n_samples, n_samples, replace=True)", "RNG.draw.generator")
+B("C20", "rename rng", BT, "", "", edits=[("        rng = np.random.default_rng(", "        generator = np.random.default_rng("), ("idx_rnd = rng.choice(", "idx_rnd = generator.choice(")])
+B("C20", "n_samples via sizes", BT, "n_samples = input_data.coords[sample_name].size", "n_samples = input_data[sample_name].size")
